@@ -530,6 +530,9 @@ fn generate_root_definition(
         }
     };
 
+    // Names are generated for use from inside this namespace
+    context.current_namespace = namespace;
+
     let defs = match decl {
         ir::RootDefinition::Struct(id) => {
             let sd = &module.struct_registry[id.0 as usize];
@@ -4327,8 +4330,12 @@ fn generate_enum(
 /// Construct an ast scoped identifier from a generator scoped name
 fn scoped_name_to_identifier(scoped_name: ScopedName) -> ast::ScopedIdentifier {
     ast::ScopedIdentifier {
-        // Technically should be absolute but that generates uglier paths in the common case
-        base: ast::ScopedIdentifierBase::Relative,
+        // Only anchor the path at the root when something nearer may have the same name
+        // Always being absolute generates uglier paths in the common case
+        base: match scoped_name.1 {
+            true => ast::ScopedIdentifierBase::Absolute,
+            false => ast::ScopedIdentifierBase::Relative,
+        },
         identifiers: scoped_name
             .0
             .into_iter()
@@ -4402,6 +4409,9 @@ fn make_attribute(name: &str) -> ast::Attribute {
 pub(crate) struct GenerateContext<'m> {
     module: &'m ir::Module,
     name_map: NameMap,
+
+    /// Namespace of the definition that is being generated
+    current_namespace: Option<ir::NamespaceId>,
     global_variable_modes: HashMap<ir::GlobalId, GlobalMode>,
     called_functions: HashSet<ir::FunctionId>,
     function_required_globals: HashMap<ir::FunctionId, Vec<ImplicitFunctionParameter>>,
@@ -4437,6 +4447,7 @@ impl<'m> GenerateContext<'m> {
         GenerateContext {
             module,
             name_map,
+            current_namespace: None,
             global_variable_modes: HashMap::new(),
             called_functions: HashSet::new(),
             function_required_globals: HashMap::new(),
@@ -4459,7 +4470,9 @@ impl<'m> GenerateContext<'m> {
 
     /// Get the full name of a function
     fn get_function_name_full(&self, id: ir::FunctionId) -> Result<ScopedName, GenerateError> {
-        Ok(self.name_map.get_name_qualified(NameSymbol::Function(id)))
+        Ok(self
+            .name_map
+            .get_name_qualified(NameSymbol::Function(id), self.current_namespace))
     }
 
     /// Get the name of a struct
@@ -4469,7 +4482,9 @@ impl<'m> GenerateContext<'m> {
 
     /// Get the full name of a struct
     fn get_struct_name_full(&self, id: ir::StructId) -> Result<ScopedName, GenerateError> {
-        Ok(self.name_map.get_name_qualified(NameSymbol::Struct(id)))
+        Ok(self
+            .name_map
+            .get_name_qualified(NameSymbol::Struct(id), self.current_namespace))
     }
 
     /// Get the name of an enum
@@ -4479,7 +4494,9 @@ impl<'m> GenerateContext<'m> {
 
     /// Get the full name of an enum
     fn get_enum_name_full(&self, id: ir::EnumId) -> Result<ScopedName, GenerateError> {
-        Ok(self.name_map.get_name_qualified(NameSymbol::Enum(id)))
+        Ok(self
+            .name_map
+            .get_name_qualified(NameSymbol::Enum(id), self.current_namespace))
     }
 
     /// Get the name of an enum value
